@@ -332,6 +332,11 @@ def revalidate(ctx: Any) -> List[Ob]:
         info_p = next((p_ for p_ in f.params[1:] if p_ in {norm(c.args[0]) for c in gen if c.args}), None)
         cmps = [t for t in walk_local_ordered(f.node) if isinstance(t, ast.Compare) and any(isinstance(x, ast.Attribute) and self_attr(x, me) == 'registry' for x in ast.walk(t))]
         ident = [t for t in cmps if len(t.ops) == 1 and isinstance(t.ops[0], (ast.Is, ast.IsNot)) and any(isinstance(x, ast.Name) and x.id == info_p for x in [t.left] + list(t.comparators))]
+        # membership of the object among the registered ones is the same test as long as a service description does not define
+        # its own equality (list / set membership then falls back to identity)
+        si = prog.cls('zeroconf._services.info.ServiceInfo')
+        if not any('__eq__' in c_.methods for c_ in si.mro()):
+            ident += [t for t in cmps if len(t.ops) == 1 and isinstance(t.ops[0], (ast.In, ast.NotIn)) and isinstance(t.left, ast.Name) and t.left.id == info_p]
         obs.append(ob(R, f, cmps[0] if cmps else gen[0], f'{n}: the registry entry is compared with the service object being announced (`is` / `is not`), not merely tested for presence', bool(ident), '' if ident else 'the guard only tests that SOME service is registered under the name: after a re-registration by another object the old task keeps announcing the withdrawn records'))
     if not obs:
         raise AnalysisError('anchor vanished: coroutine that broadcasts a service')
